@@ -19,7 +19,7 @@ class P:
             "0 or after each of the four built-in registration stages while the other threads parse / execute / register; (b) plain races "
             "of 2-8 first calls; (c) registrations racing evaluations that use the registered name, re-registrations inside the window in which "
             "the replaced handler is dropped, registrations arriving while an evaluation is inside a handler, and 200 rounds per process of a "
-            "registration racing twelve first uses of that spelling, each followed by a sequential use; (d) 100 rounds per process of four registrations of distinct names released together (one registry or all four), each round followed by a sequential use of every name; (e) a call that panics inside the engine (a precedence of 2^30 or more overflows the binding power when the operator is looked up) before, beside and ahead of calls that do not use that operator (oracle only). Oracle: no panic, no deadlock, and "
+            "registration racing twelve first uses of that spelling, each followed by a sequential use; (d) 100 rounds per process of four registrations of distinct names released together (one registry or all four), each round followed by a sequential use of every name; (d') 60 rounds of a registration landing inside twelve parses made of `x not OP y` look-aheads; (e) a call that panics inside the engine (a precedence of 2^30 or more overflows the binding power when the operator is looked up) before, beside and ahead of calls that do not use that operator (oracle only). Oracle: no panic, no deadlock, and "
             "every call's result (value and final context; logs are interleaved and ignored) is one that the sequential model produces "
             "under some order of the same calls (all permutations are run through the extracted model). "
             "Non-trivial = distinct run with >= 2 concurrent calls.")
@@ -128,6 +128,17 @@ class P:
                         regs.append("~n%d/%s" % (((k + j) % 8) * 250, reg)); posts.append(post)
                     ops += ["||"] + regs + ["PARSE:" + hx("0"), ";;"] + posts
                 items.append((" ".join(ops), ("reg-reg-race", kinds, 7)))
+        # registrations landing INSIDE parses that are full of `x not OP y` (the parser looks one token past `not` before it knows
+        # the operator - a second consultation of the tables inside the first): 60 such look-aheads per parse, twelve parsing
+        # threads, the registration swept over the first millisecond of the round; the round must end (no deadlock)
+        NX = hx("a not in b" + " && a not in b" * 30 + " || c not == d" * 30)
+        for rep in range(2 if tier == "quick" else 20):
+            ops = ["H:61:rs(%s)" % hx("h61"), "PARSE:" + hx("1")]
+            for k in range(60):
+                w = "nl%d_%d" % (rep, k)
+                readers = ["PARSE:" + NX for _ in range(12)]
+                ops += ["||"] + readers + ["~n%d/REGI:%s:6f:0:0:61" % ((k % 40) * 25000, hx(w)), "~n%d/REGP:%s:61" % (((k + 7) % 40) * 25000, hx(w + "p"))] + [";;", "EXEC:1:" + hx("5 %s 6" % w)]
+            items.append((" ".join(ops), ("reg-in-not-lookahead", "I", 8)))
         # a call that panics INSIDE the engine (the one way there is: a precedence of 2^30 or more overflows the i32 binding power,
         # in a build with overflow checks, when the operator is looked up) is that call's own business: the calls of other
         # threads, before, concurrently and afterwards, return their sequential results. (Oracle only: the model's binding
